@@ -104,6 +104,16 @@ def per_dtype(add, ls, ids, dt, si, n, nt, tier, tmpdir):
                 ln, sz, lens, rows, rav = v
                 return [ln, sz, lens, tr(rows), trflat(rav), tr(rows), [ln, lens], dt, dt]
             add("build " + show(ids), dt, guarded(build), post_build, "build/" + dt, nt, f"RaggedArray({vrows!r}, dtype='{dt}')  len/size/lengths/tolist/ravel/iter/shape/dtype")
+            # rows given as numpy arrays (typed rows; empty rows also as untyped np.array([])), no dtype argument
+            if n:
+                def build_np(untyped_empty):
+                    rows_np = [np.array(r, dtype=dt) if (r or not untyped_empty) else np.array([]) for r in vrows]
+                    a = RaggedArray(rows_np)
+                    return [len(a), int(a.size), np.asarray(a.lengths).tolist(), krows(a.tolist()), [key(x) for x in a.ravel().tolist()],
+                            krows([r.tolist() for r in a]), [int(a.shape[0]), np.asarray(a.shape[1]).tolist()], str(a.dtype), str(a.ravel().dtype)]
+                for ue in (False, True):
+                    add("build " + show(ids), dt + ("/nprows-untyped-empty" if ue else "/nprows"), guarded(lambda: build_np(ue)), post_build, "build-from-arrays/" + dt, nt,
+                        f"RaggedArray([np.array(r, dtype='{dt}') for r in {vrows!r}])" + ("  with empty rows given as np.array([])" if ue else ""))
             # flat buffer + lengths, incl. malformed sizes
             flat = [v for r in vrows for v in r]
             for delta in (0, -2, -1, 1, 2):
